@@ -42,6 +42,44 @@ def as_array(av):
 _NP_CMP = {'equal': ast.Eq, 'not_equal': ast.NotEq, 'greater': ast.Gt, 'greater_equal': ast.GtE, 'less': ast.Lt, 'less_equal': ast.LtE}
 
 
+def _not_last(m):
+    """Position mask that is false exactly at the last position: np.arange(n) < n - 1 (or != n - 1, <= n - 2)."""
+    if m is None or m.cmp is None:
+        return False
+    o, l, r = m.cmp[0], m.cmp[1], m.cmp[2]
+    if l is None or r is None or l.arange is None or len(l.arange) != 1 or r.bin is None or r.bin[0] != '-':
+        return False
+    n, off = l.arange[0], r.bin[2]
+    same_n = (n.sx is not None and n.sx == r.bin[3]) or (n.sx is None and r.bin[1] is not None and n.sym is not None and n.sym == r.bin[1].sym)
+    if not same_n or not has_const(off):
+        return False
+    return (o in ('<', '!=') and cval(off) == 1) or (o == '<=' and cval(off) == 2)
+
+
+def _change_mask(m, depth=0):
+    """(frame offset `at`, may contain the wrap-around comparison) for a mask of frames where an array differs from its roll."""
+    if m is None or depth > 4:
+        return None
+    if m.cmp is not None and m.cmp[0] == '!=':
+        o, l, r, lt, rt = m.cmp
+        for x, y, xt in ((l, r, lt), (r, l, rt)):
+            if y is not None and y.rolled is not None and y.rolled[1] == xt and y.rolled[0] in (-1, 1):
+                return (0 if y.rolled[0] == -1 else 1, True)
+        return None
+    if m.bin is not None and m.bin[0] in ('|', '&'):
+        a, b = _change_mask(m.bin[1], depth + 1), _change_mask(m.bin[2], depth + 1)
+        if m.bin[0] == '|':
+            return (a[0], a[1] or b[1]) if (a is not None and b is not None and a[0] == b[0]) else None
+        if a is not None and _not_last(m.bin[2]) and a[0] == 0:
+            return (a[0], False)
+        if b is not None and _not_last(m.bin[1]) and b[0] == 0:
+            return (b[0], False)
+        if a is not None and b is not None:
+            return (a[0], a[1] and b[1]) if a[0] == b[0] else None
+        return a if a is not None else b
+    return None
+
+
 class NpCalls:
     def np_call(self, interp, st, name, args, kwargs, node, frame):
         """numpy.<name>(...)"""
@@ -363,6 +401,23 @@ class NpCalls:
         return AV(ty='tuple', triu=(args[0], cval(k) if has_const(k) else '?'), deps=self.deps_of(args, kwargs), fancy=True,
                   elts=[AV(ty='ndarray', dtype='int'), AV(ty='ndarray', dtype='int')])
 
+    def np_indices(self, interp, st, args, kwargs, node):
+        # np.indices(shape): one integer grid per axis, grid k holds the position along axis k
+        sh = args[0] if args else None
+        n = len(sh.elts) if (sh is not None and sh.elts is not None) else (len(sh.shapeof.axes) if (sh is not None and sh.shapeof is not None and sh.shapeof.axes is not None) else None)
+        d = self.deps_of(args, kwargs)
+        if n is None:
+            return AV(ty='ndarray', dtype='int', deps=d, store='fresh')
+        return AV(ty='tuple', deps=d, elts=[AV(ty='ndarray', dtype='int', indexgrid=k, store='fresh', deps=d) for k in range(n)], fresh=True)
+
+    def np_eye(self, interp, st, args, kwargs, node):
+        k = self.arg(args, kwargs, 2, 'k', const(0))
+        return AV(ty='ndarray', deps=self.deps_of(args, kwargs), store='fresh', fresh=True,
+                  eye=cval(k) if has_const(k) else '?', dtype='bool' if 'dtype' in kwargs and kwargs['dtype'].ty == 'builtin' and kwargs['dtype'].name == 'bool' else None)
+
+    def np_identity(self, interp, st, args, kwargs, node):
+        return self.np_eye(interp, st, args[:1], {k: v for k, v in kwargs.items() if k == 'dtype'}, node)
+
     def np_ndenumerate(self, interp, st, args, kwargs, node):
         return AV(ty='ndenumerate', of=as_array(args[0]), deps=args[0].deps)
 
@@ -456,7 +511,17 @@ class NpCalls:
             out = out.w(where_cond=cond.cmp)
             # where(arr != marker, arange(n), 0) / where(arr == marker, 0, arange(n)): position of each valid entry along the last axis
             for op_, pos_, zero_ in (('!=', a, b), ('==', b, a)):
-                if cond.cmp[0] != op_ or pos_.arange_n is None or not (has_const(zero_) and cval(zero_) == 0):
+                if cond.cmp[0] != op_ or pos_.arange_n is None:
+                    continue
+                # invalid entries get the first position (0: forward fill by running maximum) or the last position
+                # (n - 1: backward fill by running minimum from the right)
+                sentinel = None
+                if has_const(zero_) and cval(zero_) == 0:
+                    sentinel = 'first'
+                elif zero_.bin is not None and zero_.bin[0] == '-' and has_const(zero_.bin[2]) and cval(zero_.bin[2]) == 1 and zero_.bin[1] is not None \
+                        and zero_.bin[1].shape_of and zero_.bin[1].shape_of == pos_.arange_n.shape_of:
+                    sentinel = 'last'
+                if sentinel is None:
                     continue
                 src, marker = cond.cmp[1], cond.cmp[2]
                 stext = cond.cmp[3]
@@ -465,7 +530,7 @@ class NpCalls:
                 n = pos_.arange_n
                 axis_name = n.shape_of[0] if n.shape_of else None
                 if src.axes is not None and axis_name is not None and src.axes[-1] == axis_name and len(pos_.arange or []) == 1:
-                    out = out.w(axes=src.axes, idxtable=dict(src=stext, marker=marker, axis=axis_name, store=src.store, flipped=src.flipped))
+                    out = out.w(axes=src.axes, idxtable=dict(src=stext, marker=marker, axis=axis_name, store=src.store, flipped=src.flipped, sentinel=sentinel))
         # np.where(arr != fill, np.arange(n), 0): index-selection table (ffill)
         return out
 
@@ -494,6 +559,11 @@ class NpCalls:
                     if a_[0] - b_[0] == 1 and b_[0] == 0 and a_[3] == 0 and b_[3] == 1:
                         idx, at = ('FRAME', 'roll'), 0
                         nowrap = True
+        if idx is None and mask.bin is not None and mask.bin[0] in ('|', '&'):
+            # change masks combined: (a != roll(a)) | (b != roll(b)), optionally & (arange(n) < n - 1)
+            cm = _change_mask(mask)
+            if cm is not None:
+                idx, at, nowrap = ('FRAME', 'roll'), cm[0], not cm[1]
         e = AV(ty='ndarray', dtype='int', idx=idx, at=at, maybe_empty=True, deps=d, store='fresh', axes=('k',),
                nonzero_of=mask, rollwrap=True if (idx == ('FRAME', 'roll') and not nowrap) else None)
         n = len(mask.axes) if mask.axes is not None else None
@@ -593,13 +663,30 @@ class NpCalls:
                 ax = 0
             along = x.axes[ax] if (x.axes is not None and isinstance(ax, int) and -len(x.axes) <= ax < len(x.axes)) else None
             # running maximum of the valid positions = position of the most recent valid entry
-            out = out.w(runmax=True if along == x.idxtable['axis'] else None, idxtable=x.idxtable if along == x.idxtable['axis'] else None)
+            ok_ = along == x.idxtable['axis'] and x.idxtable.get('sentinel', 'first') == 'first'
+            out = out.w(runmax=True if ok_ else None, idxtable=x.idxtable if ok_ else None)
         if 'out' not in kwargs:
             out = out.w(store='fresh', fresh=True)
         else:
             tgt = next((k.value for k in node.keywords if k.arg == 'out'), None) if node is not None else None
             if isinstance(tgt, ast.Name) and tgt.id in st.env:
                 st.env[tgt.id] = out
+        return out
+
+    def np_minimum_accumulate(self, interp, st, args, kwargs, node):
+        if 'out' in kwargs:
+            interp.emit('store', node, kind='out=', base=kwargs['out'], index=None, value=None, stmt=None)
+        x = as_array(args[0])
+        out = x.w(deps=self.deps_of(args, kwargs), runmax=None, idxtable=None, store='fresh', fresh=True)
+        t = x.idxtable
+        if t is not None and t.get('sentinel') == 'last' and 'out' not in kwargs:
+            ax = axis_arg(args, kwargs, 1)
+            if ax in ('none',):
+                ax = 0
+            along = x.axes[ax] if (x.axes is not None and isinstance(ax, int) and -len(x.axes) <= ax < len(x.axes)) else None
+            # running minimum taken from the far end (the table is reversed along the axis): position of the next valid entry
+            if along == t['axis'] and x.flipped and along in x.flipped:
+                out = out.w(runmax=True, idxtable=dict(t, back=True))
         return out
 
     def np_take_along_axis(self, interp, st, args, kwargs, node):
@@ -610,8 +697,11 @@ class NpCalls:
         if idx is not None and idx.runmax and idx.idxtable is not None and node is not None and node.args:
             t = idx.idxtable
             along = arr.axes[ax] if (arr.axes is not None and isinstance(ax, int) and -len(arr.axes) <= ax < len(arr.axes)) else None
-            if t['src'] == interp.sx(node.args[0]) and along == t['axis']:
-                out = out.w(filled=dict(marker=t['marker'], axis=t['axis'], store=t['store'], inflip=bool(t['flipped'] and t['axis'] in t['flipped'])),
+            back = bool(t.get('back'))
+            if back and idx.flipped and t['axis'] in idx.flipped:
+                pass  # the running minimum was not turned back: positions do not line up with the array
+            elif t['src'] == interp.sx(node.args[0]) and along == t['axis']:
+                out = out.w(filled=dict(marker=t['marker'], axis=t['axis'], store=t['store'], inflip=bool(t['flipped'] and t['axis'] in t['flipped']) != back),
                             flipped=arr.flipped)
         return out
 
